@@ -527,11 +527,11 @@ fn check_text(ctx: &mut Ctx, env: &Env, family: &str, t: &str, cfg_idx: usize, o
     // digest / verify / binding oracles all presuppose the signed form and are skipped for it
     let form_defect = st != signed_ref && cr_blanks_lf(t);
     if form_defect {
-        ctx.violation(
-            "C16/signed-form/signed_text-mismatch/cr-blanks-lf",
-            format!("signed_text() = {} but RFC form is {} for t = {}", dbg_str(&st), dbg_str(&signed_ref), dbg_str(t)),
-            replay(),
-        );
+        // Not judged: SP/TAB between a lone CR and the LF that ends the line. Whether the CR is
+        // line content (reference: "a\r" + CRLF) or fuses with the LF once the blanks are trimmed
+        // (library, GnuPG: "a" + CRLF) is not settled by the RFC text; the property does not speak
+        // about CR inside a line. Tallied as an observation.
+        ctx.tally("ambiguous.cr-blanks-lf.signed-form-differs-from-reference", 1);
     } else if st != signed_ref {
         ctx.violation(
             format!("C16/signed-form/signed_text-mismatch/{api}/{bclass}"),
@@ -865,6 +865,14 @@ fn check_text(ctx: &mut Ctx, env: &Env, family: &str, t: &str, cfg_idx: usize, o
         let same = rfc::armor::csf_signed_form(eff) == signed_ref;
         // input class of the *edited* text decides the class in the signature
         let kind_sig = if cr_blanks_lf(eff) { "cr-blanks-lf" } else { kind };
+        if kind_sig == "cr-blanks-lf" || cr_blanks_lf(t) {
+            // ambiguous class (see the signed-form oracle): exercised below for panics only
+            ctx.tally("ambiguous.cr-blanks-lf.binding-edit-not-judged", 1);
+            let _ = ctx.guarded("C16/binding", || replay(), || {
+                CleartextSignedMessage::from_string(&edoc).map(|(me, _)| verify_each(env, cfg, opt.dry, &me))
+            });
+            continue;
+        }
         if edoc == doc && same == post_ok {
             continue;
         }
